@@ -1,4 +1,5 @@
 import NbioVerif.Properties.C04
+import NbioVerif.Lemmas.SrcBridgeConn
 #print axioms ConnFull.inv_run
 #print axioms ConnFull.c04_armed
 #print axioms ConnFull.c04_belief
@@ -8,3 +9,14 @@ import NbioVerif.Properties.C04
 #print axioms ConnFull.c04_flush_monotone
 #print axioms ConnFull.c04_progress
 #print axioms ConnFull.c04_event_flushes
+#print axioms ConnFull.invE_run
+#print axioms ConnFull.c04_et_edge
+#print axioms ConnFull.c04_et_report_flushes
+#print axioms ConnFull.c04_et_edge_counterexample_early
+#print axioms ConnFull.c04_drains
+#print axioms ConnFull.c04_tail_is_three_steps
+#print axioms ConnFull.src_pModWrite
+#print axioms ConnFull.src_pResetRead
+#print axioms ConnFull.src_pAddRead
+#print axioms ConnFull.src_pAddReadWrite
+#print axioms ConnFull.src_masks_wellformed
